@@ -52,6 +52,9 @@ type Case struct {
 	Factors []Factor `json:"factors,omitempty"`
 	// SetTransformEmpty: call SetTransform() with no factors (identity) instead of not calling it.
 	SetTransformEmpty bool `json:"set_transform_empty,omitempty"`
+	// CopyRetransform: after SetTransform the Generator is copied and the copy is given another
+	// transform (same number of factors) before the original emits its path.
+	CopyRetransform bool `json:"copy_retransform,omitempty"`
 	// Second: another path given to the same Generator afterwards, under its own transform.
 	Second *Case `json:"second,omitempty"`
 	// converter
@@ -245,6 +248,18 @@ func checkPathData(c Case) error {
 		}
 		if len(affs) > 0 || c.SetTransformEmpty {
 			g.SetTransform(affs...)
+		}
+		if c.CopyRetransform && len(affs) > 0 {
+			// a copy of the Generator (plain assignment) goes its own way with as many other
+			// factors; the original keeps the transform it was given
+			g2 := g
+			g2.SetDestination(&ops.Recorder{})
+			other := make([]generate.Aff3, len(affs))
+			for i := range other {
+				other[i] = generate.Concat(generate.Scale(3, -5), generate.Translate(7, 9))
+			}
+			g2.SetTransform(other...)
+			g2.SetPathData("M1 2L3 4z", 0)
 		}
 		m := func(axis int, x float64, rel bool) (float64, float64) {
 			if rel {
@@ -540,6 +555,10 @@ func TestGeneratorDialect(t *testing.T) {
 		c.D = render(t, cmds, "generator")
 		if len(c.Factors) > 0 {
 			labels = append(labels, "transform")
+			if rapid.IntRange(0, 3).Draw(t, "copyretransform") == 0 {
+				c.CopyRetransform = true
+				labels = append(labels, "generator-copied-and-the-copy-retransformed")
+			}
 		} else if rapid.Bool().Draw(t, "emptytransform") {
 			c.SetTransformEmpty = true
 			labels = append(labels, "SetTransform-without-factors")
@@ -765,6 +784,7 @@ func checkFile(c FileCase) error {
 		for i, ci := range c.Circles {
 			circles[i] = mdicons.Circle{Cx: float32(ci.Cx), Cy: float32(ci.Cy), R: float32(ci.R)}
 		}
+		all := circles
 		for _, p := range c.Paths {
 			mp := &mdicons.Path{D: p.D}
 			if p.Opacity != nil {
@@ -785,7 +805,16 @@ func checkFile(c FileCase) error {
 				return harness.Violatef("c20/error", "ParsePath(circles): %v", err)
 			}
 		}
-		return compareWithBlend(rec.Ops, want, "ParsePath", false)
+		if err := compareWithBlend(rec.Ops, want, "ParsePath", false); err != nil {
+			return err
+		}
+		// the circle list belongs to the caller: unchanged afterwards, and good for another icon
+		for i, ci := range c.Circles {
+			if all[i] != (mdicons.Circle{Cx: float32(ci.Cx), Cy: float32(ci.Cy), R: float32(ci.R)}) {
+				return harness.Violatef("c20/circles-modified", "ParsePath modified the caller's circle list: circle %d is now %+v", i, all[i])
+			}
+		}
+		return nil
 	}
 	// through ParseFile: write an SVG file, parse the emitted Go byte literal back
 	dir, err := os.MkdirTemp("", "c20-")
